@@ -49,6 +49,12 @@ func (n *AhocorasickSlimtrie) AddSet(bitIndex int, patterns []string, typ consts
 	if n.err != nil {
 		return
 	}
+	if bitIndex < 0 || bitIndex >= len(n.ac) {
+		// Reported by Build: a rule program with more match-sets than the
+		// matcher was sized for is a configuration error, not a crash.
+		n.err = fmt.Errorf("domain set index %v out of range: at most %v match sets are supported", bitIndex, len(n.ac))
+		return
+	}
 nextPattern:
 	for _, d := range patterns {
 		switch typ {
